@@ -188,3 +188,7 @@ def run(chk, prog):
                 expected="+score(final trace) - score(tr) + assess_momenta(final momenta) - sample_momenta(...)[1]", where=where)
     chk.require(final_trace == fin_t, "TRACE-RETVAL", "HMC.edit/trace", "returned trace is the final carried trace", derived=show(final_trace)[:100], expected="final carry trace slot", where=where)
     chk.note(f"scan kernel slots by init provenance: trace={i_tr} values={i_val} gradient={i_grad} momenta={i_mom}")
+    # the request is compositional (it implements `edit` itself): it reaches an element of a vector combinator only if the combinator's index edit dispatches
+    # through request.edit (REQ-DISPATCH in the vmap / scan analyses), not through gen_fn.edit
+    from ._share import take
+    take(chk, prog, "C11", lambda o: o["rule"] == "REQ-DISPATCH", "index-edit dispatch obligations (from C11)", 1)
